@@ -856,10 +856,27 @@ def _ckey(n):
     return (n[0], n[1])
 
 
+def _excluded_by(key, other):
+    """Assuming `x == K1` (key) holds, `x == K2` with another constant K2 is false."""
+    if key[0] != "if" or other[0] != "if":
+        return False
+    a, b = key[1], other[1]
+    if not (is_term(a) and is_term(b) and a[0] == "cmp" and b[0] == "cmp" and a[1] == ("==",) and b[1] == ("==",)):
+        return False
+    xa, xb = set(a[2]), set(b[2])
+    common = xa & xb
+    if len(common) != 1 or len(xa) != 2 or len(xb) != 2:
+        return False
+    ka, kb = next(iter(xa - common)), next(iter(xb - common))
+    return ka != kb and ka[0] == "const" and kb[0] == "const"
+
+
 def _assume(n, key, branch):
     """n with its top-level conditional on ``key`` resolved to ``branch`` (2 = then/none, 3 = else/some)."""
     if _is_if(n) and _ckey(n) == key:
         return _assume(n[branch], key, branch)
+    if branch == 2 and _is_if(n) and _excluded_by(key, _ckey(n)):
+        return _assume(n[3], key, branch)  # x == K1 holds: the branch for x == K2 cannot be taken
     if _is_if(n):
         return (n[0], n[1], _assume(n[2], key, branch), _assume(n[3], key, branch))
     return n
@@ -943,9 +960,22 @@ def hoist(n, budget=None):
         return go((k[0], k[1], then, els))
 
     try:
-        return go(n)
+        return _drop_bottom(go(n))
     except (_Budget, RecursionError):
+        return _drop_bottom(n)
+
+
+def _drop_bottom(n):
+    """if(c, X, bottom) == X: the path that raises does not produce a value (done last, after the conditions are ordered)."""
+    if not isinstance(n, tuple):
         return n
+    n = tuple(_drop_bottom(x) if isinstance(x, tuple) else x for x in n)
+    if _is_if(n):
+        if n[2] == ("bottom",):
+            return n[3]
+        if n[3] == ("bottom",):
+            return n[2]
+    return n
 
 
 _BINDERS = {"comp", "fold", "fn", "lambda"}
